@@ -45,7 +45,7 @@ func VerifHarness_C16_sql() {
 	N, T, last := 1, 1, 9
 	var msgs []c16sqlMsg
 	var cur quickfix.MessageStore = store
-	for k := 0; k < 3+verifTier(); k++ {
+	for k := 0; k < 3; k++ {
 		switch verifConc(ndInt("op", 0, 7)) {
 		case 0:
 			verifCase("set-sender")
